@@ -1211,6 +1211,12 @@ def emit_negative(em, sh, rng, chunk):
         us = "; ".join("_ = l" + ARITY_VARS[i] for i in range(n))
         if probe:
             us += "\n\t\taccepted(%s, %s, new(W[%s]), %s)" % (gostrlit(req), '"Put"' if fam == "P" else '"Putt"', Tgo, vs)
+        if Tt == "other":
+            # no listing exists for such a container (hseq.New itself panics): an accepted derivation is reported as it is,
+            # with `?` windows, not hidden behind the harness's own follow-up panic
+            chunk.append("\temit(%s, try(func() string {\n\t\t%s := %s; %s\n\t\treturn \"ok %s\"\n\t}))" % (
+                gostrlit(req), vs, derive_call(fam, n, Tgo, types, names), us, " ".join(["?"] * n)))
+            return
         chunk.append("\temit(%s, try(func() string {\n\t\t%s := %s; %s\n\t\tseq := entries(hseq.New[%s]())\n\t\treturn \"ok \" + %s\n\t}))" % (
             gostrlit(req), vs, derive_call(fam, n, Tgo, types, names), us, Tgo, ' + " " + '.join(look)))
 
